@@ -31,13 +31,14 @@ MOUSE = {
     'ClkHelp': sgr(0, 44, 2), 'ClkOut': sgr(0, 60, 10),
     'TsOut': sgr(0, 5, 6), 'TsIn': sgr(0, 5, 12), 'TsReset': sgr(0, 5, 18),
     'DragC': sgr(32, 40, 12), 'DragBar': sgr(32, 40, 1), 'DragL': sgr(32, 0, 14), 'DragFar': sgr(32, 70, 20),
+    'DragR0': sgr(32, 40, 0), 'DragR2': sgr(32, 40, 2), 'DragR3': sgr(32, 40, 3), 'DragR4': sgr(32, 40, 4),
     'Rel': sgr(0, 40, 12, press=False),
     'ScrUp': sgr(64, 40, 12), 'ScrDn': sgr(65, 40, 12), 'RClk': sgr(2, 40, 12),
 }
 
 SIZES = [(1, 1), (2, 2), (3, 5), (10, 5), (49, 3), (80, 24), (200, 60)]   # cols x rows
 RESIZE = {'R%dx%d' % s: s for s in SIZES}
-TRAFFIC = ['New', 'Pos', 'Expire']
+TRAFFIC = ['New', 'Pos', 'Pos2', 'Far', 'Expire']
 
 SIGMA = (['F1', 'F2', 'F3', 'F4', 'F5', 'Tab', 'l', 'i', 'h', 't', 'n', '-', '+', 'Up', 'Down', 'Left', 'Right',
           'Enter', 'x'] + list(MOUSE) + list(RESIZE) + TRAFFIC)
@@ -110,6 +111,10 @@ class Feed:
         add('a1_pos0', {'kind': 'pos', 'icao': a1, 'lat': 35.2, 'lon': -80.0, 'alt': 10000, 'odd': 0})
         add('a1_pos1', {'kind': 'pos', 'icao': a1, 'lat': 35.2, 'lon': -80.0, 'alt': 10000, 'odd': 1})
         add('a1_vel', {'kind': 'vel', 'icao': a1, 'east': 100, 'north': -200, 'vrate': -640})
+        # a second fix 3 km further north (pairs with the first), and a report 1100 km away (clears the record)
+        add('a1_pos2_0', {'kind': 'pos', 'icao': a1, 'lat': 35.23, 'lon': -80.0, 'alt': 10100, 'odd': 0})
+        add('a1_pos2_1', {'kind': 'pos', 'icao': a1, 'lat': 35.23, 'lon': -80.0, 'alt': 10100, 'odd': 1})
+        add('a1_far_1', {'kind': 'pos', 'icao': a1, 'lat': 45.0, 'lon': -80.0, 'alt': 30000, 'odd': 1})
         add('a2_ident', {'kind': 'ident', 'icao': a2, 'callsign': 'TWO'})
         add('a3_pos0', {'kind': 'pos', 'icao': a3, 'lat': 34.7, 'lon': -80.4, 'alt': 32000, 'odd': 0})
         add('a3_pos1', {'kind': 'pos', 'icao': a3, 'lat': 34.7, 'lon': -80.4, 'alt': 32000, 'odd': 1})
@@ -189,6 +194,15 @@ def compile_script(feed, tracked, opts, size, delivery, seq, quit_key='q'):
                     keep.append('a1_ident')
                 if uses_expire:
                     steps.append({'op': 'filler', 'on': True, 'cycle': cycle()})
+            elif letter == 'Pos2':
+                steps.append({'op': 'lines', 'hex': hexs(feed.l['a1_pos2_0'] + feed.l['a1_pos2_1']), 'n': 2,
+                              'letters': [letter]})
+                if 'a1_ident' not in keep:
+                    keep.append('a1_ident')
+            elif letter == 'Far':
+                steps.append({'op': 'lines', 'hex': hexs(feed.l['a1_far_1']), 'n': 1, 'letters': [letter]})
+                if 'a1_ident' not in keep:
+                    keep.append('a1_ident')
             elif letter == 'Expire':
                 keep = []
                 steps.append({'op': 'filler', 'on': True, 'cycle': [filler_line], 'letters': [letter]})
@@ -420,6 +434,16 @@ def enumerate_scripts(tier, feed):
                 for after in ('Up', 'Down', 'Enter', 'F1', 'New'):
                     add(tr, 'default', big, 'separated', ['F3'] + sel + ['Expire', after])
         bound['parts']['F3.{Down,DownDown,Up}.Expire.{-,Up,Down,Enter,F1,New} x {one_pos,three_mixed}'] = len(out) - n0
+        # position histories with a cleared record in the middle, drawn on every tab
+        n0 = len(out)
+        hist3 = list(itertools.product(['Pos', 'Pos2', 'Far'], repeat=3)) + list(itertools.product(['Pos', 'Pos2', 'Far'], repeat=2))
+        for tr in ('empty', 'one_pos'):
+            for seq in hist3:
+                add(tr, 'default', big, 'separated', list(seq))
+        for seq in (('Pos', 'Pos2', 'Far', 'Pos'), ('Pos2', 'Pos', 'Far', 'Pos2'), ('Pos', 'Pos2', 'Far', 'Pos', 'Pos2')):
+            for tab in ('F1', 'F2', 'F3', 'F4'):
+                add('empty', 'default', big, 'separated', list(seq) + [tab])
+        bound['parts']['position histories {Pos,Pos2,Far}^<=3 x {empty,one_pos} + 3 longer ones x 4 tabs'] = len(out) - n0
     else:
         for tr in TRACKED:
             for dl in ('batched', 'separated'):
